@@ -47,7 +47,12 @@ std::string mutate(vf::Src& s, const std::string& in, bool& changed) {
 	std::string d = in; changed = false; if (d.empty() || !s.chance(2, 3)) return d;
 	size_t n = 1 + s.draw(2);
 	for (size_t i = 0; i < n && !d.empty(); i++) { size_t p = s.draw(d.size());
-		switch (s.draw(5)) { case 0: d[p] = static_cast<char>(s.draw(256)); break; case 1: d.erase(p, 1 + s.draw(3)); break; case 2: d.insert(p, 1, static_cast<char>(s.draw(256))); break; case 3: d.resize(p); break; default: { static const char* ins[] = { "\"", ",", "\r\n", "\xC1", "\xDD\xFF\xFF\xFF\xFF", "]", "}", "<", "\xEF\xBB\xBF", "\x00" }; d.insert(p, ins[s.draw(9)]); break; } } }
+		switch (s.draw(6)) {
+		case 5: {   // a number token replaced by a literal that only a lenient parser accepts (both entry points must agree on it)
+			size_t a = p; while (a < d.size() && !(d[a] >= '0' && d[a] <= '9')) a++; size_t b = a; while (b < d.size() && ((d[b] >= '0' && d[b] <= '9') || d[b] == '.' || d[b] == 'e' || d[b] == 'E' || d[b] == '+' || d[b] == '-')) b++; if (a > 0 && d[a - 1] == '-') a--;
+			static const char* lit[] = { "NaN", "Infinity", "-Infinity", "Inf", "-Inf", "nan", "1e999", "-0", "0x10", "+1", "01", "1.", ".5", "1e", "null", "true" };
+			if (a < b) d.replace(a, b - a, lit[s.draw(16)]); break; }
+		case 0: d[p] = static_cast<char>(s.draw(256)); break; case 1: d.erase(p, 1 + s.draw(3)); break; case 2: d.insert(p, 1, static_cast<char>(s.draw(256))); break; case 3: d.resize(p); break; default: { static const char* ins[] = { "\"", ",", "\r\n", "\xC1", "\xDD\xFF\xFF\xFF\xFF", "]", "}", "<", "\xEF\xBB\xBF", "\x00" }; d.insert(p, ins[s.draw(9)]); break; } } }
 	changed = d != in; return d;
 }
 
